@@ -259,10 +259,10 @@ def check_case(ctx, case):
             raise Violation("parent-bindings-changed", case, f"the spawning thread's bindings were {before!r}, after the workers ran: {after!r}")
     else:
         results, s = sched.run_interleaved(fns, [tuple(x) for x in case["segments"]], case["quantum"], instructions=bool(case.get("instructions")))
-    if s.errors:
-        raise HarnessError(f"scheduler: {s.errors}")
     inside = sum(1 for _, fn in s.switches if fn in sched.INSIDE_CHECK)
     for i, (r, so) in enumerate(zip(results, solo)):
+        if r is None or r == "deadlock":
+            continue  # (this worker did not run to its end: the scheduler errors below say why; no verdict from it)
         if r != so:
             j = next((j for j, (x, y) in enumerate(zip(r, so)) if x != y), min(len(r), len(so))) if isinstance(r, list) else -1
             raise Violation(
@@ -270,6 +270,9 @@ def check_case(ctx, case):
                 f"thread {i} of {len(workloads)}: step {j} interleaved = {r[j] if isinstance(r, list) and j < len(r) else r!r}, alone = {so[j] if j < len(so) else None!r}; "
                 f"{len(s.switches)} context switches ({inside} inside a check), e.g. {s.switches[:6]}; workload = {workloads[i]}",
             )
+    if s.errors:
+        # (every thread that finished agrees with its solo run, yet the schedule could not be carried out: no verdict)
+        raise HarnessError(f"scheduler: {s.errors}")
     # afterwards the main thread is untouched as well
     if obs.raw_bindings().strip() != "" or obs.verdict(np.zeros((3, 2)), Shaped[np.ndarray, "?k n"]) != "AnnotationError":
         raise Violation("main-thread-state", case, "after the threads finished, the main thread sees bindings or a leaf label")
